@@ -752,3 +752,275 @@ def f_fsgroups(rng, seed, style=None):
     hint = dict(cfg(rng, "u65_spill"), optimise="Performance", arena=rng.choice([fm + 2048, fm + 2560, 6144]),
                 allocator=rng.choice(["HillClimb", "Greedy"]))
     return "fsgroups:" + style, n.desc(outs), hint
+
+
+# ============================================================================= opt-in families
+# Families below are NOT compiled by shape_jobs() / shape_sample() unless a check names them (families= / extra=): the
+# rotation of the families above, and with it every existing draw, stays as it was.
+OPT_IN = set()
+
+
+def _state(n, name, shape, dt="INT8", scale=0.05, zp=0):
+    """a variable (state) tensor: no buffer, is_variable, neither network input nor output - it keeps its value between
+    inferences, so it is live during the whole operator sequence"""
+    v = n.fm(name, shape, dt, scale, zp)
+    n.t[v]["is_variable"] = True
+    return v
+
+
+# ----------------------------------------------------------------------------- statevar
+OPT_IN.add("statevar")
+
+
+@family("statevar", ["npu_early", "cpu_early", "npu_late", "cpu_late", "npu_mid", "npu_and_cpu", "two_states", "early_in_second_island",
+                     "early_then_wide", "npu_ew_early", "npu_ew_mid", "npu_ew_late"])
+def f_statevar(rng, seed, style=None):
+    """variable (state) tensors as operands of NPU and CPU operators, read early / in the middle / late, in chains of NPU and
+    CPU operators whose later tensors have exactly the size of the state tensor (they fit into the hole a too short live
+    range would leave).  npu_*: the state is read by an NPU convolution / pooling operator whose result joins the chain;
+    npu_ew_*: the state is itself an operand of an NPU elementwise operator (a candidate for in-place output)"""
+    n = Net(seed)
+    style = pick_style(rng, "statevar", style)
+    H, W, C = rng.choice([4, 8]), rng.choice([4, 8, 16]), rng.choice([8, 16])
+    shp = [1, H, W, C]
+    x = n.fm("in", shp, is_input=True)
+    v = _state(n, "state", shp, scale=0.04, zp=1)
+    direct = style.startswith("npu_ew")
+
+    def npu(t, tag, other=None):
+        if other is not None:
+            if not direct:      # read by an operator that never works in place
+                other = produce(n, rng, other, rng.choice(["conv", "dw", "maxpool", "avgpool"]), tag + "_rd")
+            return n.eltwise(rng.choice(["ADD", "ADD", "SUB", "MUL"]), t, other, name=tag)
+        return produce(n, rng, t, rng.choice(["conv", "dw", "maxpool", "abs", "mulc"]), tag)
+
+    def host(t, tag, other=None):
+        if other is not None:
+            y = n.like(t, tag)
+            n.op(rng.choice(["FLOOR_DIV", "FLOOR_MOD"]), [t, other], [y])
+            return y
+        return n.cpu_op(t, rng.choice(["ROUND", "CUSTOM", "ROUND"]), name=tag)
+    depth = rng.randint(4, 6)
+    kinds = [("n" if i % 2 == 0 else "c") for i in range(depth)]       # NPU and CPU operators alternate ...
+    if rng.random() < 0.4:
+        kinds = [rng.choice("nnc") for _ in range(depth)]                # ... or come in runs
+    where = {"npu_early": ("n", 0), "cpu_early": ("c", 0), "npu_late": ("n", depth - 1), "cpu_late": ("c", depth - 1),
+             "npu_mid": ("n", depth // 2), "npu_and_cpu": ("n", 0), "two_states": ("n", 0), "early_in_second_island": ("n", 2),
+             "early_then_wide": ("n", 0), "npu_ew_early": ("n", 0), "npu_ew_mid": ("n", depth // 2),
+             "npu_ew_late": ("n", depth - 1)}[style]
+    kinds[where[1]] = where[0]
+    if style == "early_in_second_island":
+        kinds[0], kinds[1] = "n", "c"
+    second = None
+    if style == "npu_and_cpu":
+        kinds[2] = "c"
+        second = (2, v)
+    if style == "two_states":
+        kinds[depth - 2] = "c"
+        second = (depth - 2, _state(n, "state2", shp, scale=0.03, zp=-2))
+    t = x
+    for i, k in enumerate(kinds):
+        other = v if i == where[1] else second[1] if (second and i == second[0]) else None
+        t = (npu if k == "n" else host)(t, "%s%d" % ("n" if k == "n" else "c", i), other)
+    outs = [t]
+    if style == "early_then_wide":      # two branches live together after the state's last reader: more candidates for its bytes
+        u = npu(n.cpu_op(t, "ROUND", name="cw"), "nw")
+        outs = [t, u] if rng.random() < 0.5 else [n.eltwise("ADD", t, u, name="join")]
+    hint = cfg(rng, "any", "u55", "u55_shared", "u65_shared", "u65_spill")
+    hint["allocator"] = rng.choice(["HillClimb", "Greedy", "HillClimb", "Greedy", "LinearAlloc"])
+    return "statevar:%s:%s" % (style, "".join(kinds)), n.desc(outs), hint
+
+
+# ----------------------------------------------------------------------------- dangling
+OPT_IN.add("dangling")
+
+
+@family("dangling", ["topk_idx", "topk_vals", "custom2_second", "custom2_first", "custom3_middle", "unique_idx", "split_cpu_second",
+                     "unpack_cpu_last", "all_but_one", "dangling_at_end"])
+def f_dangling(rng, seed, style=None):
+    """operators with several outputs that stay in the output graph (CPU) and of whose outputs some are used by nobody - not
+    by an operator, not as a network output: the kernel still writes them, they need a place in the arena plan.  NPU
+    operators before and after; a second consumer keeps the operand of the multi-output operator alive across it"""
+    n = Net(seed)
+    style = pick_style(rng, "dangling", style)
+    H, W, C = rng.choice([4, 8]), rng.choice([4, 8]), rng.choice([8, 16])
+    x = n.fm("in", [1, H, W, C], is_input=True)
+    a = produce(n, rng, x, rng.choice(["add", "conv", "abs", "maxpool"]), "pre") if style != "dangling_at_end" or rng.random() < 0.5 else x
+    src = n.t[a]
+    q = (src["type"], src["scale"][0], src["zp"][0])
+    used = []
+    if style in ("topk_idx", "topk_vals", "dangling_at_end"):
+        kk = rng.choice([2, 4])
+        vals = n.fm("topk_v", [1, H, W, kk], *q)
+        idx = n.fm("topk_i", [1, H, W, kk], "INT32", None)
+        n.op("TOPK_V2", [a, n.const("k", [], "INT32", data=[kk])], [vals, idx], ["TopKV2Options", {}])
+        used = [idx] if style == "topk_vals" else [vals]
+    elif style in ("custom2_second", "custom2_first", "custom3_middle", "all_but_one"):
+        cnt = {"custom2_second": 2, "custom2_first": 2, "custom3_middle": 3, "all_but_one": rng.choice([3, 4])}[style]
+        ys = [n.fm("cust_o%d" % i, [1, H, W, C], *q) for i in range(cnt)]
+        n.op("CUSTOM", [a], ys, custom_code="ThirdPartyMulti", custom_options=[1, 2, 3, 4])
+        keep = {"custom2_second": [0], "custom2_first": [1], "custom3_middle": [0, 2], "all_but_one": [rng.randrange(cnt)]}[style]
+        used = [ys[i] for i in keep]
+    elif style == "unique_idx":
+        flat = n.cpu_op(n.reshape(a, [H * W * C]), "ROUND", name="flat")
+        vals = n.fm("uniq_v", [H * W * C], *q)
+        idx = n.fm("uniq_i", [H * W * C], "INT32", None)
+        n.op("UNIQUE", [flat], [vals, idx], ["UniqueOptions", {"IdxOutType": 2}])
+        used = [n.reshape(vals, [1, H, W, C])]
+    elif style == "split_cpu_second":    # SPLIT of a 32-bit tensor stays on the CPU
+        two = n.fm("two", [1, H, W, 2 * C], "INT32", None)
+        n.op("CUSTOM", [a], [two], custom_code="ThirdPartyWiden", custom_options=[1])
+        ys = [n.fm("split_o%d" % i, [1, H, W, C], "INT32", None) for i in range(2)]
+        n.op("SPLIT", [n.const("split_axis", [], "INT32", data=[3]), two], ys, ["SplitOptions", {"NumSplits": 2}])
+        used = [ys[0]]
+    else:                                # unpack_cpu_last: UNPACK of a 32-bit tensor stays on the CPU
+        two = n.fm("two", [3, H, W, C], "INT32", None)
+        n.op("CUSTOM", [a], [two], custom_code="ThirdPartyStack", custom_options=[1])
+        ys = [n.fm("unpack_o%d" % i, [H, W, C], "INT32", None) for i in range(3)]
+        n.op("UNPACK", [two], ys, ["UnpackOptions", {"Num": 3, "Axis": 0}])
+        used = [ys[0], ys[1]]
+    outs = []
+    if style == "dangling_at_end":
+        outs = list(used)
+    else:
+        for i, u in enumerate(used):
+            if n.t[u]["type"] == "INT32":
+                outs.append(u)
+            else:
+                outs.append(consume(n, rng, u, rng.choice(["add", "abs", "maxpool", "conv"]), "post%d" % i))
+    if a != x and rng.random() < 0.7:    # the operand of the multi-output operator is read again afterwards
+        outs.append(consume(n, rng, a, rng.choice(["add", "abs", "maxpool"]), "side"))
+    hint = cfg(rng, "any", "u55", "u55_shared", "u65_shared", "u65_spill")
+    return "dangling:" + style, n.desc(outs), hint
+
+
+# ----------------------------------------------------------------------------- fc_batch
+OPT_IN.add("fc_batch")
+
+# every batch size from 1 to 17: the sizes the compiler lays out over H x W from a table (4, 8, 16), their neighbours (one
+# below / above a power of two), primes, odd and even sizes in between
+FC_BATCHES = list(range(1, 18))
+
+
+@family("fc_batch", ["alone", "alone_keep", "between", "chain", "branches", "r3_in", "keep_r3", "alone_deep"])
+def f_fc_batch(rng, seed, style=None):
+    """FULLY_CONNECTED with a batch (rows of the 2-D input) of 1..17, which the compiler lays out over H x W: alone (its
+    result is the last thing in the arena), with keep_num_dims, between other NPU operators, chained, several batches in one
+    network, rank-3 inputs.  Hinted to spilling (Dedicated SRAM / internal default of the U65) and non-spilling modes"""
+    n = Net(seed)
+    style = pick_style(rng, "fc_batch", style)
+    # (depths whose rows do not fit into the 16-byte rounding of an allocation: one row more than the tensor has is then
+    # outside the tensor's storage)
+    C, oc = rng.choice([24, 16, 20, 32]), rng.choice([4, 10, 16, 24])
+    N = rng.choice(FC_BATCHES)
+    detail = []
+    if style in ("alone", "alone_keep", "alone_deep"):
+        if style == "alone_deep":
+            C, oc = rng.choice([64, 100]), rng.choice([40, 72])
+        x = n.fm("in", [N, C], is_input=True)
+        outs = [n.fc2(x, oc, name="fc", keep_num_dims=(style == "alone_keep"), act=rng.choice([0, 0, 1]))]
+        detail.append(N)
+    elif style == "between":
+        x = n.fm("in", [N, C], is_input=True)
+        a = n.unary("ABS", x, name="pre_abs") if rng.random() < 0.5 else n.fc2(x, C, name="pre_fc")
+        b = n.fc2(a, oc, name="fc", keep_num_dims=rng.random() < 0.3)
+        k = rng.choice(["lrelu", "add", "abs"])
+        outs = [n.eltwise("ADD", b, n.fm("side", [N, oc], scale=0.04, zp=1, is_input=True), name="post_add") if k == "add" else
+                n.unary("LEAKY_RELU", b, name="post_lrelu", alpha=0.2) if k == "lrelu" else n.unary("ABS", b, name="post_abs")]
+        detail.append(N)
+    elif style == "chain":
+        x = n.fm("in", [N, C], is_input=True)
+        t = x
+        for i in range(rng.randint(2, 3)):
+            t = n.fc2(t, rng.choice([8, 16, 24]), name="fc%d" % i, keep_num_dims=rng.random() < 0.3)
+        outs = [t]
+        detail.append(N)
+    elif style == "branches":
+        outs = []
+        for i, b in enumerate(rng.sample(FC_BATCHES[1:], 3)):
+            x = n.fm("in%d" % i, [b, C], is_input=True)
+            outs.append(n.fc2(x, rng.choice([4, 10, 16]), name="fc%d" % i, keep_num_dims=rng.random() < 0.3))
+            detail.append(b)
+    else:                                 # rank-3 input [a, b, C] with a x b rows, viewed as 2-D (keep_r3: rank-3 result)
+        a = rng.choice([d for d in (1, 2, 3, 5) if N % d == 0])
+        x = n.fm("in", [a, N // a, C], is_input=True)
+        outs = [n.fc2(x, oc, name="fc", keep_num_dims=(style == "keep_r3"))]
+        detail.append("%dx%d" % (a, N // a))
+    hint = cfg(rng, "u65_spill", "u65_spill", "u65_spill", "u65_shared", "u55_shared", "any")
+    return "fc_batch:%s:n%s" % (style, "+".join(map(str, detail))), n.desc(outs), hint
+
+
+# ----------------------------------------------------------------------------- memonly_first
+OPT_IN.add("memonly_first")
+
+
+@family("memonly_first", ["input_reshape", "input_squeeze", "cpu_reshape", "input_expand", "after_inputs", "two_copies", "const_reshape",
+                          "same_shape", "copy_and_output", "cpu_squeeze", "after_npu_island", "both_consumers"])
+def f_memonly_first(rng, seed, style=None):
+    """a memory-only operator (RESHAPE / SQUEEZE / EXPAND_DIMS, also one that keeps the shape) directly on a tensor that ENTERS
+    the NPU subgraph - a network input, the result of a CPU operator, a constant - feeding an NPU operator: it cannot be
+    bypassed and stays as a feature-map copy.  As the first thing in the network (source and destination are the first
+    allocations of their memories) and with other inputs / operators before it; in two-memory modes the copy crosses from
+    the arena into the fast storage, in one-memory modes it is elided"""
+    n = Net(seed)
+    style = pick_style(rng, "memonly_first", style)
+    H, W, C = rng.choice([4, 8, 16]), rng.choice([4, 8]), rng.choice([8, 16, 24])
+    ck = rng.choice(["conv", "conv", "dw", "maxpool", "abs", "addc", "lrelu", "conv"])
+
+    def memonly(t, kind, tag):
+        shp = n.shape(t)
+        if kind == "squeeze":             # [1, H, 1, C] -> [1, H, C] -> consumer sees H x C
+            return n.expand_dims(n.squeeze(t, [2], name=tag + "_squeeze"), 1, name=tag + "_expand") if rng.random() < 0.5 else \
+                n.reshape(n.squeeze(t, [2], name=tag + "_squeeze"), [1, shp[1], 1, shp[3]], name=tag + "_back")
+        if kind == "expand":              # [H, W, C] -> [1, H, W, C]
+            return n.expand_dims(t, 0, name=tag + "_expand")
+        if kind == "same":
+            return n.reshape(t, list(shp), name=tag + "_same")
+        return n.reshape(t, rng.choice([[1, shp[1] * shp[2], 1, shp[3]], [1, shp[2], shp[1], shp[3]], [1, 1, shp[1] * shp[2], shp[3]]]),
+                         name=tag + "_reshape")
+    outs = []
+    if style in ("input_reshape", "same_shape", "copy_and_output", "both_consumers"):
+        x = n.fm("in", [1, H, W, C], is_input=True)
+        r = memonly(x, "same" if style == "same_shape" else "reshape", "m")
+        outs = [consume(n, rng, r, ck)]
+        if style == "copy_and_output":
+            outs.append(r)
+        if style == "both_consumers":     # the source is read again by an NPU operator of the same subgraph
+            outs.append(consume(n, rng, x, rng.choice(["abs", "maxpool", "conv"]), "src"))
+    elif style in ("input_squeeze", "cpu_squeeze"):
+        x = n.fm("in", [1, H * 2, 1, C], is_input=True)
+        a = cpu(n, rng, x) if style == "cpu_squeeze" else x
+        outs = [consume(n, rng, memonly(a, "squeeze", "m"), ck)]
+    elif style == "input_expand":
+        x = n.fm("in", [H, W, C], is_input=True)
+        outs = [consume(n, rng, memonly(x, "expand", "m"), ck)]
+    elif style == "cpu_reshape":
+        x = n.fm("in", [1, H, W, C], is_input=True)
+        outs = [consume(n, rng, memonly(cpu(n, rng, x), "reshape", "m"), ck)]
+    elif style == "after_inputs":         # other inputs (and an operator on them) come first: the source is not at offset 0
+        x0 = n.fm("first", [1, rng.choice([2, 4]), 8, rng.choice([8, 16])], is_input=True)
+        outs.append(consume(n, rng, x0, rng.choice(["abs", "conv", "maxpool"]), "first"))
+        x = n.fm("in", [1, H, W, C], is_input=True)
+        outs.append(consume(n, rng, memonly(x, rng.choice(["reshape", "same"]), "m"), ck))
+        if rng.random() < 0.5:
+            outs.reverse()
+    elif style == "two_copies":           # both operands of a binary elementwise operator are copies of network inputs
+        x = n.fm("in", [1, H, W, C], is_input=True)
+        x2 = n.fm("in2", [1, H * W, 1, C], scale=0.03, zp=2, is_input=True)
+        a = n.reshape(x, [1, H * W, 1, C], name="m_reshape")
+        b = n.reshape(x2, [1, H * W, 1, C], name="m2_same") if rng.random() < 0.5 else n.reshape(n.reshape(x2, [1, W, H, C], name="m2_a"), [1, H * W, 1, C], name="m2_b")
+        outs = [n.eltwise(rng.choice(["ADD", "MUL", "SUB"]), a, b, name="join")]
+    elif style == "const_reshape":        # constant seen through a reshape as the second operand; the first is a copied input
+        x = n.fm("in", [1, H, W, C], is_input=True)
+        k = n.const("k", [1, H * W, 1, C], "INT8", -100, 100, scale=[0.02], zp=[0])
+        kr = n.reshape(k, [1, H, W, C], name="k_reshape")
+        a = memonly(x, "same", "m") if rng.random() < 0.5 else x
+        outs = [n.eltwise(rng.choice(["ADD", "MUL"]), a, kr, name="join")]
+    else:                                 # after_npu_island: NPU operators, a CPU operator, then the copy feeding the second island
+        x = n.fm("in", [1, H, W, C], is_input=True)
+        a = produce(n, rng, x, rng.choice(["conv", "dw", "abs", "maxpool"]), "isl")
+        outs = [consume(n, rng, memonly(cpu(n, rng, a), rng.choice(["reshape", "same"]), "m"), ck)]
+    hint = cfg(rng, "u65_spill", "u65_spill", "u65_spill", "u65_spill", "u65_spill", "u65_shared", "u55_shared", "any")
+    if rng.random() < 0.5:
+        hint["optimise"] = "Performance"
+    return "memonly_first:%s:%s" % (style, ck), n.desc(outs), hint
